@@ -300,6 +300,10 @@ def run(repo: Repo, rep: Report, tier: str) -> None:
 
     leb128_termination_rule(repo, rep, "C05.R6")
     codec_fold_rule(repo, rep, "C05.R7")
+    from .memo import memo_rule
+
+    memo_rule(repo, rep, "C05.R8")
+
 
 
 
